@@ -1,6 +1,6 @@
 SPECIFICATION Spec
 CONSTANTS
-  MaxBlocks = 3
+  MaxBlocks = 2
   MaxReqs = 2
   Templates = {"o23", "jmp", "jcc", "call", "ret", "ret1", "icall"}
   PatchKinds = {"plain2", "loop", "fwd", "ret", "jmpsym", "callsym"}
